@@ -225,3 +225,45 @@ def worker_fn(ctx) -> FuncInfo:
         raise AnalysisError(f"{ap.qname}: the per-file worker handed to the executor could not be identified ({[m.name for m in found]})")
     ctx._worker_fn = found[0]
     return found[0]
+
+
+def cli_namespace_names(ctx, fn: FuncInfo) -> set[str]:
+    """Names that hold the parsed command line (the argparse namespace) inside `fn`: locals bound to a `parse_args(...)` call, and
+    parameters of `fn` that a caller in the same module binds to such a local (one level) -- identified by what they hold, not by
+    what they are called."""
+    def own(f: FuncInfo) -> set[str]:
+        out = set()
+        for n in walk_no_nested(f.node):
+            tv = None
+            if isinstance(n, ast.Assign) and len(n.targets) == 1 and isinstance(n.targets[0], ast.Name):
+                tv = (n.targets[0].id, n.value)
+            elif isinstance(n, ast.AnnAssign) and n.value is not None and isinstance(n.target, ast.Name):
+                tv = (n.target.id, n.value)
+            elif isinstance(n, ast.NamedExpr) and isinstance(n.target, ast.Name):
+                tv = (n.target.id, n.value)
+            if tv and isinstance(tv[1], ast.Call) and (last_attr(tv[1].func) or "") == "parse_args":
+                out.add(tv[0])
+        return out
+
+    names = own(fn)
+    params = fn.positional_params()
+    for g in ctx.prog.live_functions():
+        if g.module is not fn.module or g is fn:
+            continue
+        gn = own(g)
+        if not gn:
+            continue
+        for c in walk_no_nested(g.node):
+            if isinstance(c, ast.Call) and (last_attr(c.func) or "") == fn.name:
+                for i, a in enumerate(c.args):
+                    if isinstance(a, ast.Name) and a.id in gn and i < len(params):
+                        names.add(params[i])
+                for k in c.keywords:
+                    if k.arg and isinstance(k.value, ast.Name) and k.value.id in gn:
+                        names.add(k.arg)
+    return names
+
+
+def reads_option(e: ast.AST, ns: set[str], option: str) -> bool:
+    """does expression e read `<namespace>.<option>`?"""
+    return any(isinstance(x, ast.Attribute) and x.attr == option and isinstance(x.value, ast.Name) and x.value.id in ns for x in ast.walk(e))
